@@ -963,6 +963,11 @@ func (Engine) CrashViolation(stderr string, opt core.Options) (core.Violation, b
 	if strings.Contains(stderr, "concurrent map") {
 		return core.Violation{Property: "C20", Signature: "C20/fatal/concurrent-map", Detail: "fatal runtime error"}, true
 	}
+	if strings.Contains(stderr, "all goroutines are asleep") {
+		// a single caller, no other goroutine: a pool call that never returns (a lock left held by an
+		// earlier call); the pool does not keep what it is given if it cannot be given anything any more
+		return core.Violation{Property: "C20", Signature: "C20/call-never-returns", Detail: "a pool call blocks forever (the Go runtime reports that every goroutine is asleep): a lock was left held by an earlier call"}, true
+	}
 	return core.Violation{}, false
 }
 func (Engine) Describe() core.EngineInfo {
